@@ -402,7 +402,7 @@ class ArgumentParser(ParserDeprecations, ActionsContainer, ArgumentLinking, argp
             if environ is None:
                 environ = os.environ
             with parser_context(load_value_mode=self.parser_mode):
-                cfg_env = self._load_env_vars(env=environ, defaults=defaults)
+                cfg_env = self._load_env_vars(env=environ, defaults=defaults, cfg_base=cfg)
             cfg = self.merge_config(cfg_env, cfg)
 
         return cfg
@@ -524,12 +524,21 @@ class ArgumentParser(ParserDeprecations, ActionsContainer, ArgumentLinking, argp
         self._logger.debug("Parsed object: %s", cfg_obj)
         return parsed_cfg
 
-    def _load_env_vars(self, env: Union[Dict[str, str], os._Environ], defaults: bool) -> Namespace:
+    def _load_env_vars(
+        self,
+        env: Union[Dict[str, str], os._Environ],
+        defaults: bool,
+        cfg_base: Optional[Namespace] = None,
+    ) -> Namespace:
         cfg = Namespace()
         actions = filter_default_actions(self._actions)
         for action in actions:
             env_var = get_env_var(self, action)
             if env_var in env and isinstance(action, ActionConfigFile):
+                if cfg_base is not None:
+                    # like a config given on the command line, the config in the environment acts on what the
+                    # defaults and default config files built, so that "key+" appends instead of replacing
+                    cfg = cfg_base.clone()
                 ActionConfigFile.apply_config(self, cfg, action.dest, env[env_var])
         for action in actions:
             env_var = get_env_var(self, action)
